@@ -175,6 +175,19 @@ def run_operator(spec, res):
         if np.abs(out - ref).max() > 1e-11 * max(np.abs(ref).max(), 1):
             common.add_violation(res, f"superposition {b} order={p}", {"N": N, "axis": ax})
             continue
+        # ---- a real field stored with an integer dtype
+        fi = rng.integers(-9, 10, size=shape)
+        with common.Quiet():
+            try:
+                out = np.array(op(fi))
+            except Exception as e:
+                out = e
+        ref = np.moveaxis(np.tensordot(want, np.moveaxis(fi.astype(float), ax, 0), axes=(1, 0)), 0, ax)
+        res['observations'] += 1
+        if isinstance(out, Exception) or out.shape != ref.shape or \
+                np.abs(out - ref).max() > 1e-11 * max(np.abs(ref).max(), 1):
+            common.add_violation(res, f"integer-dtype field {b} order={p}", {"N": N, "axis": ax})
+            continue
         # ---- single-point impulse: response stays on the grid line
         pt = tuple(int(rng.integers(0, s)) for s in shape)
         f = np.zeros(shape)
